@@ -160,7 +160,9 @@ def axiom_audit(module, theorem_names):
     if p.returncode != 0:
         raise LeanFailure(f"axiom audit of {module} failed", text)
     res = {}
-    for m in re.finditer(r"'([^']+)' (does not depend on any axioms|depends on axioms: \[([^\]]*)\])", text):
+    # names may end in primes: the report is `'<name>' depends on …` with the name between the
+    # first quote of the line and the last quote before ` depends` / ` does not depend`
+    for m in re.finditer(r"^'(.+?)' (does not depend on any axioms|depends on axioms: \[([^\]]*)\])", text, re.M):
         name = m.group(1)
         axs = [a.strip() for a in (m.group(3) or "").replace("\n", " ").split(",") if a.strip()]
         res[name] = axs
